@@ -42,6 +42,8 @@ def gen_case(rng, tag, rescale=None):
     pre = rng.choice([0, 0, 2, 6])
     d = os.path.join(vlib.CACHE, "tmp", "io_" + tag)
     via = rng.choice([0, 0, 1, 2])      # 0: mesh_writer::write (the simulation's path); 1, 2: write_cell_data_file called directly (path / stream overload)
+    if rng.random() < 0.2:
+        via += 10                       # written while the process has a digit-grouping global C++ locale installed (as a host application may)
     line = "RT " + tissue.fmt_tissue(tissue.params(), cts, cells) + " W %s %d %d %d" % (d, pre, rng.randrange(1 << 30), via)
     return dict(line=line, dir=d, nc=nc, pre=pre, mag=mag, via=via)
 
@@ -145,7 +147,7 @@ def digits_ok(x, y):
 def oracle(c, written, read, tys, sec):
     if len(read) != len(written):
         return "same_number_of_cells (%d written, %d read)" % (len(written), len(read))
-    if c["via"] == 0 and tys != [w[0] for w in written]:
+    if c["via"] % 10 == 0 and tys != [w[0] for w in written]:
         return "same_cell_types (%s vs %s)" % ([w[0] for w in written][:8], tys[:8])
     for k, ((ty, co, fs), (rco, rfs)) in enumerate(zip(written, read)):
         if [tuple(f) for f in rfs] != [tuple(f) for f in fs]:
@@ -164,7 +166,7 @@ def oracle(c, written, read, tys, sec):
     nt, tl = sec["types"]
     if nt != len(tl) or nt != len(written):
         return "declared_counts_match (CELL_TYPES)"
-    if c["via"] != 0:
+    if c["via"] % 10 != 0:
         return None             # write_cell_data_file alone writes the geometry sections only
     if sec.get("cell_data") != len(written):
         return "declared_counts_match (CELL_DATA)"
@@ -237,7 +239,7 @@ def run(ck):
                 d = "CELLS section differs"
             elif ms["types"] != sec["types"]:
                 d = "CELL_TYPES section differs"
-            elif cases[ci]["via"] != 0:
+            elif cases[ci]["via"] % 10 != 0:
                 if "cell_data" in sec:
                     d = "geometry-only entry point wrote a CELL_DATA section"
             elif ms["cell_data"] != sec.get("cell_data"):
@@ -256,7 +258,7 @@ def run(ck):
                     same = len(a) == len(b) and all((x == y) or (("p" in x or "x" in x) and unhx(x) == unhx(y)) for x, y in zip(a, b))
                     if not same:
                         d = "reader results differ"
-                if d is None and cases[ci]["via"] == 0 and [int(x) for x in got_t.split()] != tys:
+                if d is None and cases[ci]["via"] % 10 == 0 and [int(x) for x in got_t.split()] != tys:
                     d = "cell types read differ"
             if d:
                 broken.append((ci, d))
@@ -266,7 +268,7 @@ def run(ck):
     ck.cov["distinct_nontrivial"] = nontriv
     ck.cov["traces_validated_against_impl"] = len(q) - len(broken)
     ck.sample(dict(cells=cases[0]["nc"], unused_slot_ops=cases[0]["pre"], coordinate_magnitude=cases[0]["mag"]), limit=1)
-    ck.cov["entry_points"] = {k: sum(1 for c in cases if c["via"] == v) for k, v in (("write", 0), ("write_cell_data_file(path)", 1), ("write_cell_data_file(stream)", 2))}
+    ck.cov["entry_points"] = {k: sum(1 for c in cases if c["via"] == v) for k, v in (("write", 0), ("write_cell_data_file(path)", 1), ("write_cell_data_file(stream)", 2), ("write under a grouping locale", 10), ("write_cell_data_file(path) under a grouping locale", 11), ("write_cell_data_file(stream) under a grouping locale", 12))}
     seen = set()
     for ci, f in fails:
         key = f.split(" ")[0]
